@@ -264,14 +264,14 @@ META = {
     "C06": M(
         "cluster",
         "bounded-progress window monitor in virtual time over commit events",
-        "Bounded restatement of liveness: with <= f crashed (and three consecutive live leaders in the rotation) and delays <= timeout/10 after GST, every live node's committed round grows in every window W = 6(f+1) timeouts + sync_retry + 10 s. Held within the bound on the runs made; not a proof of liveness.",
+        "Bounded restatement of liveness: with <= f crashed (and three consecutive live leaders in the rotation) and delays <= timeout/10 after GST, every live node's committed round grows in every window W = 6(f+1) timeouts + sync_retry + 10 s. Runs include crashes at random times and from the start, heavy pre-GST delays, nodes that boot late (round timers out of phase) and proposals that are slower than all other messages. Held within the bound on the runs made; not a proof of liveness.",
         "Premises are enforced by the scenario generator (no loss between live nodes, delay bound after GST); runs whose plan misses the premise are inconclusive. Slowdowns below the window are invisible.",
     ),
     "C07": M(
         "cluster",
         "fault-injection scenarios (isolate / split, heal) with offline convergence, sync-reply and store-order monitors",
-        "Isolation intervals (node, start, length) are sampled; after the heal and a settling period the victim must have reached what the others had committed at reconnection, agree with them round by round, every helper reply must be byte-identical to the original proposal and have been requested, and blocks are stored parent-first.",
-        "Links are loss-free after the heal; the fault space is sampled per run (enumeration over node x start x length happens across seeds).",
+        "Isolation intervals (node, start, length) are sampled in cluster runs; in puppet catch-up scripts the ancestor depth (2..11), the behaviour of the first sync target (answers / silent) and sync_retry_delay (1 / 5 / 10 s) are enumerated across runs. After the heal (or the retry) the node must have committed what it must reach and agree with the others round by round; always-on in every run: every helper reply equals a block proposed under the requested digest and was asked for by the origin it is sent to, blocks are stored parent-first, and a sync request for a stored block is answered.",
+        "Links are loss-free after the heal; the fault space is sampled per run (enumeration over node x start x length x depth x retry delay happens across seeds).",
     ),
 }
 
